@@ -4,15 +4,15 @@
 // cooperative scheduler (verifsched): depth-first search over choice sequences with
 // preemption bounding. Two harness families:
 //
-//  (1) datasource.RequestCache: programs of 2-3 threads x 1-2 operations (Get on two
-//      colliding keys, GetMap) x scripted fetch outcomes x initial states; per complete
-//      execution: fetch-at-most-once-per-success, linearizability (brute force over all
-//      orders that respect real time), no deadlock.
-//  (2) strategy/common.ComputePatches through override/relax.ComputePatches on generated
-//      universes with 2..3 vulnerabilities: every delivery order of the result channel and
-//      every interleaving of the attempts at callback granularity (resolve-client and matcher
-//      calls) up to the preemption bound; the returned patch list must be deeply equal in
-//      every execution, sorted and duplicate-free.
+//	(1) datasource.RequestCache: programs of 2-3 threads x 1-2 operations (Get on two
+//	    colliding keys, GetMap) x scripted fetch outcomes x initial states; per complete
+//	    execution: fetch-at-most-once-per-success, linearizability (brute force over all
+//	    orders that respect real time), no deadlock.
+//	(2) strategy/common.ComputePatches through override/relax.ComputePatches on generated
+//	    universes with 2..3 vulnerabilities: every delivery order of the result channel and
+//	    every interleaving of the attempts at callback granularity (resolve-client and matcher
+//	    calls) up to the preemption bound; the returned patch list must be deeply equal in
+//	    every execution, sorted and duplicate-free.
 //
 // The data-race clause is decided by the separate free-running -race binary (./race), which
 // this program runs at the end (see DESIGN §3.6): under the cooperative scheduler every
@@ -48,17 +48,19 @@ type harness interface {
 }
 
 type stats struct {
-	Execs      int64            `json:"execs"`
-	Steps      int64            `json:"steps"`
-	Nodes      int64            `json:"nodes"`
-	Outcomes   map[string]int64 `json:"outcomes"`
-	Deadlocks  int64            `json:"deadlocks"`
-	BoundCut   bool             `json:"bound_cut"`
-	HorizonCut bool             `json:"horizon_cut"`
-	Viol       []violation      `json:"violations,omitempty"`
-	Programs   int64            `json:"programs"`
-	Orders     map[string]bool  `json:"-"`
-	Sample     string           `json:"sample,omitempty"`
+	Execs       int64            `json:"execs"`
+	Steps       int64            `json:"steps"`
+	Nodes       int64            `json:"nodes"`
+	Outcomes    map[string]int64 `json:"outcomes"`
+	Deadlocks   int64            `json:"deadlocks"`
+	BoundCut    bool             `json:"bound_cut"`
+	DeadlineCut bool             `json:"deadline_cut"`
+	Skipped     int64            `json:"skipped_programs"`
+	HorizonCut  bool             `json:"horizon_cut"`
+	Viol        []violation      `json:"violations,omitempty"`
+	Programs    int64            `json:"programs"`
+	Orders      map[string]bool  `json:"-"`
+	Sample      string           `json:"sample,omitempty"`
 }
 
 type violation struct {
@@ -128,7 +130,7 @@ func (x *explorer) run(prefix []int, expect []verifsched.Step) *verifsched.Exec 
 
 func (x *explorer) dfs(prefix []int, expect []verifsched.Step) {
 	if time.Now().After(x.deadline) || (x.maxExecs > 0 && x.n >= x.maxExecs) {
-		x.st.BoundCut = true
+		x.st.DeadlineCut = true
 		return
 	}
 	e := x.run(prefix, expect)
@@ -508,7 +510,8 @@ func worker(shard, shards int, thorough bool, bound int, budget time.Duration) {
 		one := &stats{Outcomes: map[string]int64{}, Orders: map[string]bool{}}
 		x := &explorer{h: h, bound: bound, st: one, deadline: deadline}
 		if time.Now().After(deadline) {
-			fs.BoundCut = true
+			fs.DeadlineCut = true
+			fs.Skipped++
 			continue
 		}
 		x.dfs(nil, nil)
@@ -518,6 +521,7 @@ func worker(shard, shards int, thorough bool, bound int, budget time.Duration) {
 		fs.Nodes += one.Nodes
 		fs.Deadlocks += one.Deadlocks
 		fs.BoundCut = fs.BoundCut || one.BoundCut
+		fs.DeadlineCut = fs.DeadlineCut || one.DeadlineCut
 		fs.HorizonCut = fs.HorizonCut || one.HorizonCut
 		fs.Viol = append(fs.Viol, one.Viol...)
 		// distinct outcomes per program: a program whose executions all give one outcome did not collide
@@ -617,6 +621,8 @@ func main() {
 			t.Nodes += s.Nodes
 			t.Deadlocks += s.Deadlocks
 			t.BoundCut = t.BoundCut || s.BoundCut
+			t.DeadlineCut = t.DeadlineCut || s.DeadlineCut
+			t.Skipped += s.Skipped
 			t.HorizonCut = t.HorizonCut || s.HorizonCut
 			t.Viol = append(t.Viol, s.Viol...)
 			for k, v := range s.Outcomes {
@@ -649,7 +655,12 @@ func main() {
 		if t.HorizonCut {
 			r.Cap("%s: an execution hit the 5000-step horizon", fam)
 		}
-		sort.Slice(t.Viol, func(i, j int) bool { return t.Viol[i].Program+fmt.Sprint(t.Viol[i].Choices) < t.Viol[j].Program+fmt.Sprint(t.Viol[j].Choices) })
+		if t.DeadlineCut {
+			r.Cap("%s: the exploration deadline cut the search (%d programs not started); everything explored is within preemption bound %d", fam, t.Skipped, bound)
+		}
+		sort.Slice(t.Viol, func(i, j int) bool {
+			return t.Viol[i].Program+fmt.Sprint(t.Viol[i].Choices) < t.Viol[j].Program+fmt.Sprint(t.Viol[j].Choices)
+		})
 		for _, v := range t.Viol {
 			r.Violation(fam+":"+v.Key, fmt.Sprintf("%s schedule [%s]: %s", v.Program, v.Schedule, v.Detail), map[string]any{"program": v.Program, "choices": v.Choices, "schedule": v.Schedule})
 		}
